@@ -129,6 +129,7 @@ namespace Givaro {
                     _bF = BaseField_t(p, 1);
                     _pD = Pol_t(_bF, Y);
                     _extension_order = _exponent;
+                    zero = _pD.zero; one = _pD.one; mOne = _pD.mOne;
 		}
 		_pD.creux_random_irreducible( _irred, (int64_t)_extension_order );
             }
